@@ -534,6 +534,8 @@ impl<'w, 'r, 'gc> Cb<'w, 'r, 'gc> {
                     Kind::SetInner | Kind::Built { .. } | Kind::ZstShared => true,
                     Kind::Lay { t, len } => *t as usize >= crate::lay::LAYS.len() || *len as usize > crate::lay::MAX_LEN,
                     Kind::Slice { len } | Kind::Swh { len } => *len > 8,
+                    // made by AllocCopy only
+                    Kind::CopySlice { .. } | Kind::CopySwh { .. } | Kind::SetInner | Kind::Built { .. } | Kind::ZstShared => true,
                     _ => false,
                 };
                 if bad_kind || (0..n_ids).any(|d| self.w.sh.objs.contains_key(&(id + d))) || tok::drops(*id) > 0 {
@@ -858,6 +860,31 @@ impl<'w, 'r, 'gc> Cb<'w, 'r, 'gc> {
             }
             Op::Zst { id, a: al, sized, via_static } => self.op_zst(*id, *al, *sized, *via_static),
             Op::HandleIn { h, op } => self.op_handle_in(*h, *op),
+            Op::AllocCopy { id, children, header } => {
+                let n = children.len().min(9);
+                if (*header && n == 0) || self.w.sh.objs.contains_key(id) || tok::drops(*id) > 0 {
+                    return self.skip();
+                }
+                // the pointers it is born with: objects this callback can name, nothing else
+                let kids: Vec<Option<Id>> = children[..n].iter().map(|c| c.filter(|c| self.map.contains_key(c))).collect();
+                let edges: Vec<Edge<'gc>> = {
+                    let _p = seam::pause();
+                    kids.iter().map(|c| c.and_then(|c| self.map.get(&c).copied())).collect()
+                };
+                let kind = if *header { Kind::CopySwh { len: (n - 1) as u8 } } else { Kind::CopySlice { len: n as u8 } };
+                self.alloc_made(*id, kind, Some(&edges));
+                {
+                    let _p = seam::pause();
+                    drop(edges);
+                }
+                if let Some(o) = self.w.sh.objs.get_mut(id) {
+                    for (k, c) in kids.iter().enumerate() {
+                        o.strong[k] = *c;
+                    }
+                }
+                self.w.stats.cell(format!("alloc-copy|{}|{}", if *header { "swh" } else { "slice" }, phase_name(self.phase)));
+                self.rep.only_barriers = false;
+            }
         }
     }
 
@@ -932,10 +959,17 @@ impl<'w, 'r, 'gc> Cb<'w, 'r, 'gc> {
     }
 
     fn alloc(&mut self, id: Id, kind: Kind) {
+        self.alloc_made(id, kind, None)
+    }
+
+    /// `edges`: for the copy-path kinds, the pointers the object is born with.
+    fn alloc_made(&mut self, id: Id, kind: Kind, edges: Option<&[Edge<'gc>]>) {
         let a = self.a;
         let since = seam::mark();
         let mut lay_info = None;
         let any = match kind {
+            Kind::CopySlice { .. } => access::alloc_copy(self.mc, id, edges.unwrap_or(&[]), false),
+            Kind::CopySwh { .. } => access::alloc_copy(self.mc, id, edges.unwrap_or(&[]), true),
             Kind::Lay { t, len } => {
                 let seed = crate::rng::mix(0x1A7, id as u64);
                 let made = (crate::lay::LAYS[t as usize].make)(self.mc, len as usize, seed);
